@@ -80,10 +80,15 @@ def run(ctx):
         flat = [x for r_ in E for x in r_]
         ctx.case(("sm", nf, tuple(D), tuple(flat), v["fw"], v["fd"]), len(set(flat)) > 1)
         # dyadic scaling of the labels keeps them exactly representable (float32 cast inside smooth_spec)
-        scale = ctx.rng.choice((1.0, 1.0, 0.5)) if max(D) * 0.5 == int(max(D) * 0.5) or True else 1.0
+        # ... and labels that float32 cannot represent (3.6-degree multiples, a 0.1-degree offset) must be looked up all the same:
+        # smooth_spec casts its working copy of the directions to float32, the result carries the caller's float64 labels
+        scale = ctx.rng.choice((1.0, 1.0, 0.5, 0.04))
+        offset = ctx.rng.choice((0.0, 0.0, 0.1))
         da = L.build(F, D, E)
         if scale != 1.0 and not v["circular"]:
             da = da.assign_coords(dir=da.dir * scale)
+        if offset and float(da.dir.max()) + offset < 360.0:
+            da = da.assign_coords(dir=da.dir + offset)
         variants = [("spec.smooth", lambda: da.spec.smooth(freq_window=v["fw"], dir_window=v["fd"]), da)]
         ds = da.to_dataset(name="efth")
         variants.append(("smooth_spec(Dataset)", lambda: smooth_spec(ds, freq_window=v["fw"], dir_window=v["fd"])["efth"], da))
@@ -178,4 +183,4 @@ def run(ctx):
             else:
                 ctx.violation({"fn": how, "relation": "dimension order kept", "order": list(order)},
                               "smooth through the %s on spectra stored as %s: %s" % (how, order, what))
-    ctx.assume("direction spacings are whole or dyadic degrees (labels are cast to float32 inside smooth_spec); windows do not exceed the grid size")
+    ctx.assume("windows do not exceed the grid size; direction labels: whole, dyadic, 3.6-degree multiples and 0.1-degree offsets (float64 labels that float32 cannot represent)")
